@@ -136,6 +136,16 @@ def main(argv):
             item = {'module': r['module'], 'fn': r['fn'], 'pin': r.get('pin', {}), 'args': r['cex']}
             tag = replay_items([item])[0]
             replays_done += 1
+            if tag is None:
+                # the symbolic run explores many paths in one interpreter: a model that fails only there may come from
+                # state the code under test shares between separately constructed instances - replay it twice / three times
+                for k in (2, 3):
+                    t2 = replay_items([dict(item, repeat=k)])[0]
+                    replays_done += 1
+                    if t2 is not None and not str(t2).startswith('ERR:'):
+                        item = dict(item, repeat=k)
+                        tag = f'{t2}/only-on-run-{k}-in-one-interpreter:state-shared-between-separately-built-instances'
+                        break
             if tag is None or str(tag).startswith('ERR:'):
                 harness_errors.append(f"{r['shard']}: solver counterexample {r['cex']} did not reproduce concretely (replay -> {tag}); "
                                       f"encoding or stub wrong - not reported as a violation")
